@@ -12,3 +12,21 @@ for i in ids:
     lock[i] = sorted({stable_name(r['name']) for r in res if r['kind'] == 'vc' and r['status'] == 'proved'})
     print(i, len(lock[i]))
 (V / 'obligations.lock.json').write_text(json.dumps(lock, indent=0) + '\n')
+
+# solver hints: for the obligations that took more than a few seconds, which back end decided them (order only)
+hints_p = V / 'solver_hints.json'
+hints = json.loads(hints_p.read_text()) if hints_p.exists() else {}
+for i in ids:
+    res = json.loads((V / 'evidence' / f'{i}.obligations.json').read_text())
+    slow = {}
+    for r in res:
+        if r['kind'] == 'vc' and r['status'] == 'proved' and r.get('seconds', 0) > 3:
+            k = stable_name(r['name'])
+            if k not in slow or r['seconds'] > slow[k][0]:
+                slow[k] = (r['seconds'], r['backend'])
+    for k in [k for k in hints if k.startswith(tuple())]:
+        pass
+    for k, (_, b) in slow.items():
+        hints[k] = b
+    print(i, 'hints', len(slow))
+hints_p.write_text(json.dumps(hints, indent=0, sort_keys=True) + '\n')
